@@ -305,9 +305,9 @@ def handle (req impl : String) : String × String :=
   | ["unlock", who, r, v, _len, cfm, em, o, u, p, id, ue, oe, pw] =>
     match r.toNat?, v.toNat?, B o, B u, p.toInt?, optId id, optId ue, optId oe, B pw with
     | some r, some v, some o, some u, some p, some id, some ue, some oe, some pw =>
-      let d : EncDict := { r := r, v := v, cfm := if cfm = "none" then none else some cfm,
-        em := if em = "1" then some true else if em = "0" then some false else none,
-        o := o, u := u, p := toU32 p, id := id, ue := ue, oe := oe }
+      let cfmO : Option String := if cfm = "none" then none else some cfm
+      let emO : Option Bool := if em = "1" then some true else if em = "0" then some false else none
+      let d : EncDict := ⟨r, v, cfmO, emO, o, u, toU32 p, id, ue, oe⟩
       let res := if who = "user" then unlockUser d pw else unlockOwner d pw
       let m := match res with
         | .newErr => "err:new"
